@@ -1,7 +1,8 @@
 (* Extract/ExtractC15.v — extraction of the C15 models (table layouts, sfnt tables, CFF operands
    and INDEX) for the correspondence check.  ExtrOcamlBasic only. *)
 From AV Require Import Base.Prelude Gen.ReaderPrims Model.Reader Model.ReaderExt Model.TableLayout
-  Gen.TableLayouts Model.Tables Model.Cff Gen.CffDictTables Model.CffDict.
+  Gen.TableLayouts Model.Tables Model.Cff Gen.CffDictTables Model.CffDict
+  Gen.GlyfConsts Model.Composite Model.Cmap Model.CmapSubset Model.CmapWrite.
 Require Import ExtrOcamlBasic.
 Extraction Language OCaml.
 
@@ -27,4 +28,6 @@ Extraction "../ocaml/c15/model.ml"
   operand_int_write operand_offset_write op_read serialise_offset_array
   index_write index_read index_objects index_write_borrowed
   dict_read dict_write dict_write_dep dict_written integer_to_offset operator_try_from is_default
-  kind_defaults kind_max_operands operand_write operator_write.
+  kind_defaults kind_max_operands operand_write operator_write
+  cglyph_read cglyph_write glyph_read_full glyph_write_full has_instructions
+  parse parse_cmap sub_write to_owned cmap_write cmap_read_all owned_records.
